@@ -3,9 +3,12 @@
   CoreHeap.lean).  Layout:
     §1 arrays, windows, validity under heap extension
     §2 `abs`: unfolding lemmas (`abs_seq`, `abs_map`) and the frame lemma `abs_frame`
-    §3 the primitives (`alloc`, `goAppend`, `appendEach`) keep a slice under construction `Built`
-    §4 the builtins: each one refines `Core.body` and only extends the heap
-    §5 histories
+    §3 the primitives (`alloc`, `goAppend`, `appendEach`, `setAt`) keep a slice under construction `Built`
+       (it looks at an array allocated in this step; the heap the step started from is untouched)
+    §4 the builtins: each one meets the step contract `StepOK` (the heap is only EXTENDED) and `Refines`
+       `Core.body`; map objects; with-meta, apply, and map / update / update-in over a callee `CallbackOK`
+    §5 one step (`stepOp_spec`), histories (`Inv`, `run_inv`), the C02 theorems
+    §6 the unrepaired code: concrete counterexamples
 -/
 import LispModel.Heap
 import LispModel.CoreHeap
